@@ -570,6 +570,49 @@ func (c *Ctx) jcsRules() {
 			}
 		}
 		c.Check("C05.P1", "sortKey=utf16(runes(name))", okKey, tr.Pos(), "the member's sort key is unicode/utf16.Encode([]rune(name)) of the same parsed name that is emitted")
+		// member order is decided on the UTF-16 keys only: nothing in the canonicalizer orders two texts as texts (Go's
+		// < on strings, strings.Compare, sorting of strings order by UTF-8 bytes = code points, which differs from
+		// UTF-16 code units for U+E000..U+FFFF against supplementary characters)
+		{
+			var bad []string
+			for _, f := range c.reachableModuleFuncs([]*ssa.Function{tr}) {
+				if pkgPathOf(f) != modPkg+pJC {
+					continue
+				}
+				forEachInstr(f, func(in ssa.Instruction) {
+					switch x := in.(type) {
+					case *ssa.BinOp:
+						if (x.Op == token.LSS || x.Op == token.GTR || x.Op == token.LEQ || x.Op == token.GEQ) && isStringType(x.X.Type()) {
+							bad = append(bad, c.pos(x.Pos())+": "+c.Path(x, nil))
+						}
+					case *ssa.Call:
+						g := x.Call.StaticCallee()
+						if g == nil {
+							return
+						}
+						if o := g.Origin(); o != nil {
+							g = o
+						}
+						n := g.String()
+						switch n {
+						case "strings.Compare", "sort.Strings", "sort.StringsAreSorted", "sort.SearchStrings", "bytes.Compare":
+							bad = append(bad, c.pos(x.Pos())+": "+n)
+						case "cmp.Compare", "cmp.Less", "slices.Sort", "slices.Max", "slices.Min", "slices.BinarySearch", "slices.IsSorted":
+							if len(x.Call.Args) > 0 {
+								t := x.Call.Args[0].Type()
+								if sl, isSl := t.Underlying().(*types.Slice); isSl {
+									t = sl.Elem()
+								}
+								if isStringType(t) {
+									bad = append(bad, c.pos(x.Pos())+": "+n+" on strings")
+								}
+							}
+						}
+					}
+				})
+			}
+			c.Check("C05.P1", "no-ordering-of-texts-as-texts", len(bad) == 0, tr.Pos(), fmt.Sprintf("the canonicalizer orders member names by their UTF-16 sort keys only; orderings of strings found: %v", bad))
+		}
 		if cmpFn == nil {
 			c.Check("C05.P1", "ordering-function", false, tr.Pos(), "no ordering function over []uint16 sort keys found")
 		} else {
@@ -658,6 +701,10 @@ func (c *Ctx) jcsRules() {
 				for _, r := range *libCmp.Referrers() {
 					if lt, isB := r.(*ssa.BinOp); isB && lt.Op == token.LSS && lt.X == ssa.Value(libCmp) && c.Path(lt.Y, nil) == "0" {
 						precedesOnTrue(lt)
+					}
+					// (the library answers exactly -1, 0 or +1)
+					if eq, isB := r.(*ssa.BinOp); isB && eq.Op == token.EQL && eq.X == ssa.Value(libCmp) && c.Path(eq.Y, nil) == "-1" {
+						precedesOnTrue(eq)
 					}
 				}
 			}
@@ -883,6 +930,7 @@ func (c *Ctx) jcsRules() {
 		c.Check("C05.K4", "u-escape:decoded-by-library-hex-parser", okHex, tr.Pos(), "the value of a \\uXXXX escape is strconv.ParseUint(digits, 16, …) of the four characters read: "+detail)
 	}
 	c.Min("C05.K4", 2)
+	c.jcsScannerRules(tr)
 
 	// ---- P2
 	c.hashLeafContracts("C05.P2")
@@ -1105,6 +1153,26 @@ func isModuleIndexFn(g *ssa.Function) bool {
 func (c *Ctx) prefixCaseRule(rule string, cmpFn *ssa.Function) {
 	var start *ssa.BasicBlock
 	for _, l := range naturalLoops(cmpFn) {
+		// the loop's own exit: the branch on "index against bound" (at the head, or — range-over-int loops are rotated —
+		// at the foot of the body) that leaves the loop
+		for b := range l.blocks {
+			iff, isIf := b.Instrs[len(b.Instrs)-1].(*ssa.If)
+			if !isIf {
+				continue
+			}
+			bo, isB := iff.Cond.(*ssa.BinOp)
+			if !isB || !isCmp(bo.Op) || (c.Path(bo.X, nil) != "ι" && c.Path(bo.Y, nil) != "ι") {
+				continue
+			}
+			for _, sc := range b.Succs {
+				if !l.blocks[sc] {
+					start = sc
+				}
+			}
+		}
+		if start != nil {
+			continue
+		}
 		if _, isIf := l.header.Instrs[len(l.header.Instrs)-1].(*ssa.If); !isIf {
 			continue
 		}
@@ -1267,4 +1335,409 @@ func (c *Ctx) prefixCaseRule(rule string, cmpFn *ssa.Function) {
 		}
 	}
 	c.Check(rule, "prefix-case:shorter-key-first", len(bad) == 0, start.Instrs[0].Pos(), "with no differing code unit: the shorter key precedes, equal keys raise the duplicate error, a longer key does not precede", bad...)
+}
+
+// jcsScannerRules: small rules on how the canonicalizer's closures read the input.
+//
+//	K5a  the value of a \uXXXX escape is never compared with a constant (zero is U+0000, not "no escape")
+//	K5b  the ordinary bytes of a string reach the output as they are read from the input buffer — not through the
+//	     reader that refuses bytes above 0x7f outside strings
+//	K5c  results of index searches are tested for found / not found only (`> 0` forgets the first entry of a table)
+//	K5d  structural characters are compared on what the whitespace-skipping scanner returns, never on the raw reader
+//	K5e  every loop governed by the input position moves the position on every way round
+func (c *Ctx) jcsScannerRules(tr *ssa.Function) {
+	fns := append([]*ssa.Function{tr}, closuresOf(tr)...)
+	pkgFns := []*ssa.Function{}
+	for _, f := range c.reachableModuleFuncs([]*ssa.Function{tr}) {
+		if pkgPathOf(f) == pkgPathOf(tr) {
+			pkgFns = append(pkgFns, f)
+		}
+	}
+	seenF := map[*ssa.Function]bool{}
+	for _, f := range fns {
+		seenF[f] = true
+	}
+	for _, f := range pkgFns {
+		if !seenF[f] {
+			fns = append(fns, f)
+			seenF[f] = true
+		}
+	}
+	isByteFn := func(f *ssa.Function) bool {
+		if f.Signature.Params().Len() != 0 || f.Signature.Results().Len() != 1 {
+			return false
+		}
+		bt, isB := f.Signature.Results().At(0).Type().Underlying().(*types.Basic)
+		return isB && bt.Kind() == types.Uint8
+	}
+	isRuneFn := func(f *ssa.Function) bool {
+		if f.Signature.Params().Len() != 0 || f.Signature.Results().Len() != 1 {
+			return false
+		}
+		bt, isB := f.Signature.Results().At(0).Type().Underlying().(*types.Basic)
+		return isB && bt.Kind() == types.Int32
+	}
+	// the raw reader: func() byte without a loop that reads the input buffer; the skipping scanner: func() byte with a loop
+	var raw, reader *ssa.Function
+	for _, f := range fns {
+		if f.Blocks == nil || f.Parent() == nil {
+			continue
+		}
+		if isByteFn(f) && len(naturalLoops(f)) == 0 {
+			readsInput := false
+			forEachInstr(f, func(in ssa.Instruction) {
+				if _, ok := in.(*ssa.IndexAddr); ok {
+					readsInput = true
+				}
+			})
+			if readsInput {
+				raw = f
+			}
+		}
+		if isRuneFn(f) {
+			reader = f
+		}
+	}
+	if raw == nil || reader == nil {
+		c.Check("C05.K5", "scanner-closures", false, tr.Pos(), "no raw byte reader (func() byte without a loop that indexes the input) / escape reader (func() rune) among Transform's closures: shape not understood")
+		c.Min("C05.K5", 1)
+		return
+	}
+	callsOf := func(f *ssa.Function, target *ssa.Function) []*ssa.Call {
+		var out []*ssa.Call
+		forEachInstr(f, func(in ssa.Instruction) {
+			cl, ok := in.(*ssa.Call)
+			if !ok {
+				return
+			}
+			for _, g := range c.Callees(&cl.Call) {
+				if g == target {
+					out = append(out, cl)
+				}
+			}
+		})
+		return out
+	}
+	// values derived from v by conversions and φ
+	var derived func(v ssa.Value, seen map[ssa.Value]bool) []ssa.Value
+	derived = func(v ssa.Value, seen map[ssa.Value]bool) []ssa.Value {
+		if seen[v] || v.Referrers() == nil {
+			return nil
+		}
+		seen[v] = true
+		out := []ssa.Value{v}
+		for _, r := range *v.Referrers() {
+			switch x := r.(type) {
+			case *ssa.Convert:
+				out = append(out, derived(x, seen)...)
+			case *ssa.ChangeType:
+				out = append(out, derived(x, seen)...)
+			case *ssa.Phi:
+				out = append(out, derived(x, seen)...)
+			}
+		}
+		return out
+	}
+	// K5a
+	{
+		var bad []string
+		n := 0
+		for _, f := range fns {
+			for _, cl := range callsOf(f, reader) {
+				n++
+				for _, v := range derived(cl, map[ssa.Value]bool{}) {
+					for _, r := range *v.Referrers() {
+						if bo, ok := r.(*ssa.BinOp); ok && isCmp(bo.Op) {
+							if _, k1 := bo.X.(*ssa.Const); k1 {
+								bad = append(bad, c.pos(bo.Pos())+": "+c.Path(bo, nil))
+							} else if _, k2 := bo.Y.(*ssa.Const); k2 {
+								bad = append(bad, c.pos(bo.Pos())+": "+c.Path(bo, nil))
+							}
+						}
+					}
+				}
+			}
+		}
+		c.Check("C05.K5", "u-escape:value-not-compared-with-constants", n > 0 && len(bad) == 0, reader.Pos(), fmt.Sprintf("%d read(s) of an escape's value; none is compared with a constant (every value 0x0000-0xFFFF is a code unit)", n), bad...)
+	}
+	// K5b
+	{
+		var bad []string
+		n := 0
+		for _, f := range fns {
+			if len(callsOf(f, reader)) == 0 {
+				continue
+			}
+			forEachInstr(f, func(in ssa.Instruction) {
+				cl, ok := in.(*ssa.Call)
+				if !ok || cl.Call.StaticCallee() == nil || cl.Call.StaticCallee().String() != "(*strings.Builder).WriteByte" || len(cl.Call.Args) != 2 {
+					return
+				}
+				n++
+				for _, v := range derived0(cl.Call.Args[1]) {
+					if x, isC := v.(*ssa.Call); isC {
+						for _, g := range c.Callees(&x.Call) {
+							if g == raw {
+								bad = append(bad, c.pos(cl.Pos())+": the byte written comes from "+short(raw.String()))
+							}
+						}
+					}
+				}
+			})
+		}
+		c.Check("C05.K5", "string-bytes:read-from-the-buffer", n > 0 && len(bad) == 0, tr.Pos(), fmt.Sprintf("%d byte write(s) in the string reader; none takes its byte from the reader that refuses non-ASCII bytes", n), bad...)
+	}
+	// K5c
+	{
+		var bad []string
+		for _, f := range fns {
+			forEachInstr(f, func(in ssa.Instruction) {
+				cl, ok := in.(*ssa.Call)
+				if !ok || !isIndexSearch(cl) || cl.Referrers() == nil || len(cl.Call.Args) == 0 {
+					return
+				}
+				// (searches in the package's own tables: in a formatted number the exponent mark is never first)
+				if !strings.HasPrefix(c.Path(cl.Call.Args[0], nil), "global:") {
+					return
+				}
+				for _, v := range derived(cl, map[ssa.Value]bool{}) {
+					for _, r := range *v.Referrers() {
+						bo, isB := r.(*ssa.BinOp)
+						if !isB || !isCmp(bo.Op) {
+							continue
+						}
+						op, k := bo.Op, bo.Y
+						if bo.Y == v {
+							op, k = flipOp(bo.Op), bo.X
+						}
+						kc, isK := k.(*ssa.Const)
+						if !isK {
+							continue
+						}
+						kv := c.Path(kc, nil)
+						okT := (kv == "0" && (op == token.GEQ || op == token.LSS)) || (kv == "-1" && (op == token.EQL || op == token.NEQ || op == token.GTR || op == token.LEQ))
+						if !okT {
+							bad = append(bad, c.pos(bo.Pos())+": "+c.Path(bo, nil))
+						}
+					}
+				}
+			})
+		}
+		c.Check("C05.K5", "index-search:found-or-not-only", len(bad) == 0, tr.Pos(), "results of index searches are compared only as found (>= 0, != -1) / not found (< 0, == -1)", bad...)
+	}
+	// K5d
+	{
+		structural := map[string]bool{"58": true, "44": true, "91": true, "93": true, "123": true, "125": true}
+		var bad []string
+		for _, f := range fns {
+			if len(naturalLoops(f)) > 0 && isByteFn(f) {
+				continue // the skipping scanner itself
+			}
+			for _, cl := range callsOf(f, raw) {
+				for _, v := range derived(cl, map[ssa.Value]bool{}) {
+					for _, r := range *v.Referrers() {
+						bo, isB := r.(*ssa.BinOp)
+						if !isB || !isCmp(bo.Op) {
+							continue
+						}
+						k := bo.Y
+						if bo.Y == v {
+							k = bo.X
+						}
+						if kc, isK := k.(*ssa.Const); isK && structural[c.Path(kc, nil)] {
+							bad = append(bad, c.pos(bo.Pos())+": "+c.Path(bo, nil))
+						}
+					}
+				}
+			}
+		}
+		c.Check("C05.K5", "structural-characters:read-through-the-skipping-scanner", len(bad) == 0, raw.Pos(), "no structural character (: , [ ] { }) is expected on the raw reader's result (whitespace may precede it)", bad...)
+	}
+	// K5e
+	{
+		// the position: the int cell of Transform that the raw reader stores into
+		var pos *ssa.Alloc
+		forEachInstr(raw, func(in ssa.Instruction) {
+			if st, ok := in.(*ssa.Store); ok {
+				if fv, isFV := st.Addr.(*ssa.FreeVar); isFV {
+					if b, isAl := bindingOfFV(fv).(*ssa.Alloc); isAl && isIntType(derefT(b.Type())) {
+						pos = b
+					}
+				}
+			}
+		})
+		var bad []string
+		n := 0
+		if pos != nil {
+			isPos := func(v ssa.Value) bool {
+				switch x := v.(type) {
+				case *ssa.Alloc:
+					return x == pos
+				case *ssa.FreeVar:
+					return bindingOfFV(x) == ssa.Value(pos)
+				}
+				return false
+			}
+			// the functions that move the position: they store into it, or call one that does
+			movers := map[*ssa.Function]bool{}
+			for changed := true; changed; {
+				changed = false
+				for _, f := range fns {
+					if movers[f] {
+						continue
+					}
+					mv := false
+					forEachInstr(f, func(in ssa.Instruction) {
+						switch x := in.(type) {
+						case *ssa.Store:
+							if f != tr && isPos(x.Addr) {
+								mv = true
+							}
+						case *ssa.Call:
+							for _, g := range c.Callees(&x.Call) {
+								if movers[g] {
+									mv = true
+								}
+							}
+						}
+					})
+					if mv {
+						movers[f] = true
+						changed = true
+					}
+				}
+			}
+			for _, f := range fns {
+				for _, l := range naturalLoops(f) {
+					// governed by the position: the header's condition reads it
+					governed := false
+					for b := range l.blocks {
+						iff, isIf := b.Instrs[len(b.Instrs)-1].(*ssa.If)
+						if !isIf {
+							continue
+						}
+						exits := false
+						for _, sc := range b.Succs {
+							if !l.blocks[sc] {
+								exits = true
+							}
+						}
+						if !exits {
+							continue
+						}
+						for v := range backSlice(iff.Cond) {
+							if ld, isLd := v.(*ssa.UnOp); isLd && ld.Op == token.MUL && isPos(ld.X) {
+								governed = true
+							}
+						}
+					}
+					if !governed {
+						continue
+					}
+					n++
+					// blocks that move the position: a store to it, or a call (the readers move it)
+					cut := map[edge]bool{}
+					moves := map[*ssa.BasicBlock]bool{}
+					for b := range l.blocks {
+						for _, in := range b.Instrs {
+							mv := false
+							switch x := in.(type) {
+							case *ssa.Store:
+								mv = isPos(x.Addr)
+							case *ssa.Call:
+								if _, isBuiltin := x.Call.Value.(*ssa.Builtin); !isBuiltin {
+									for _, g := range c.Callees(&x.Call) {
+										if movers[g] {
+											mv = true
+										}
+									}
+								}
+							}
+							if mv {
+								moves[b] = true
+							}
+						}
+					}
+					for b := range moves {
+						for _, sc := range b.Succs {
+							cut[edge{from: b, to: sc}] = true
+						}
+					}
+					for _, e := range l.bodyEntries() {
+						if moves[e] {
+							continue
+						}
+						for x := range reach(e, cut) {
+							if !l.blocks[x] || moves[x] {
+								continue
+							}
+							for _, sc := range x.Succs {
+								if sc == l.header {
+									bad = append(bad, c.pos(firstPos(l.header))+": a way round the loop does not move the input position")
+								}
+							}
+						}
+					}
+				}
+			}
+		}
+		c.Check("C05.K5", "position-loops:advance-on-every-round", pos != nil && n > 0 && len(bad) == 0, tr.Pos(), fmt.Sprintf("%d loop(s) governed by the input position; each moves it (a store, or a call of one of the readers) on every way back to its head", n), bad...)
+	}
+	c.Min("C05.K5", 5)
+}
+
+// derived0: v and what it is converted from (conversions, φ), backwards.
+func derived0(v ssa.Value) []ssa.Value {
+	out := []ssa.Value{v}
+	seen := map[ssa.Value]bool{v: true}
+	for i := 0; i < len(out) && i < 16; i++ {
+		switch x := out[i].(type) {
+		case *ssa.Convert:
+			if !seen[x.X] {
+				seen[x.X] = true
+				out = append(out, x.X)
+			}
+		case *ssa.ChangeType:
+			if !seen[x.X] {
+				seen[x.X] = true
+				out = append(out, x.X)
+			}
+		case *ssa.Phi:
+			for _, e := range x.Edges {
+				if !seen[e] {
+					seen[e] = true
+					out = append(out, e)
+				}
+			}
+		}
+	}
+	return out
+}
+
+// bindingOfFV: what the enclosing function binds to the captured variable fv (the cell), through nested literals.
+func bindingOfFV(fv *ssa.FreeVar) ssa.Value {
+	lit := fv.Parent()
+	for d := 0; d < 4 && lit != nil && lit.Parent() != nil; d++ {
+		idx := -1
+		for i, x := range lit.FreeVars {
+			if x == fv {
+				idx = i
+			}
+		}
+		var b ssa.Value
+		forEachInstr(lit.Parent(), func(in ssa.Instruction) {
+			if mc, ok := in.(*ssa.MakeClosure); ok && mc.Fn == ssa.Value(lit) && idx >= 0 && idx < len(mc.Bindings) {
+				b = mc.Bindings[idx]
+			}
+		})
+		if b == nil {
+			return nil
+		}
+		if nfv, isFV := b.(*ssa.FreeVar); isFV {
+			fv, lit = nfv, nfv.Parent()
+			continue
+		}
+		return b
+	}
+	return nil
 }
